@@ -252,7 +252,7 @@ class BaseLoadedMessage(LoadedMessageInterface):
         disposition = parsed.content_disposition
         language = parsed.content_language
         location = parsed.content_location
-        if maintype == 'multipart':
+        if maintype == 'multipart' and msg.body.has_nested:
             sub_body_structs = [cls._get_body_structure(part)
                                 for part in msg.body.nested]
             return MultipartBodyStructure(
